@@ -976,6 +976,22 @@ func (c *Ctx) tok4(fn *ssa.Function, name string, p *pathx.Path, i int, t string
 			c.S.Bad("TOK-4", key+"signal-changed("+eq+"→"+ck+")", c.pos(e.Instr), name, "the signal put back differs from the signal taken: waiting requests would see a different connect state", c.Trace(p, i))
 			return
 		}
+		// connDown is the outcome of a failed connect attempt: only the function
+		// that dials deposits it (anyone else puts back the very signal taken)
+		if dk, has := c.constIntOK("connDown"); has && ck == fmt.Sprintf("connSignal:%d", dk) && equalTo(p, s.val, i) != ck {
+			dials := false
+			if env.dial != nil {
+				for _, cal := range c.staticCallees(fn) {
+					if cal == env.dial {
+						dials = true
+					}
+				}
+			}
+			if !dials {
+				c.S.Bad("TOK-4", key+ck+"|by-a-function-that-does-not-dial", c.pos(e.Instr), name, "connDown is deposited by a function that made no connect attempt: requests fail with ErrDown (\"after a failed connect attempt\") although the read routine has not even tried to reconnect — the state after a lost connection or a failed write is connPending", c.Trace(p, i))
+				return
+			}
+		}
 		c.S.OK("TOK-4", key+ck, c.pos(e.Instr), name, "signal placeholder deposited", true)
 	case v == s.val && t == tkWrite:
 		if eq := equalTo(p, s.val, i); strings.HasPrefix(eq, "connSignal:") {
